@@ -2,14 +2,14 @@
 in driver.TIERS stops submission earlier on a slow machine)."""
 
 CHECKS = {
-    "C05": {"module": "sim.c05", "quick": {"runs": 1600, "chunk": 8, "wall": 50.0},
+    "C05": {"module": "sim.c05", "quick": {"runs": 3200, "chunk": 8, "wall": 50.0},
             "thorough": {"runs": 60000, "chunk": 16}},
-    "C14": {"module": "sim.c14", "quick": {"runs": 4000, "chunk": 32},
+    "C14": {"module": "sim.c14", "quick": {"runs": 10000, "chunk": 32},
             "thorough": {"runs": 400000, "chunk": 64}},
-    "C17": {"module": "sim.c17", "quick": {"runs": 6000, "chunk": 32},
+    "C17": {"module": "sim.c17", "quick": {"runs": 10000, "chunk": 32},
             "thorough": {"runs": 400000, "chunk": 64}},
-    "C20": {"module": "sim.c20", "post": True, "quick": {"runs": 3000, "chunk": 16},
+    "C20": {"module": "sim.c20", "post": True, "quick": {"runs": 8000, "chunk": 16},
             "thorough": {"runs": 200000, "chunk": 32}},
-    "C16": {"module": "sim.c16", "quick": {"runs": 2400, "chunk": 8, "wall": 70.0},
+    "C16": {"module": "sim.c16", "quick": {"runs": 4000, "chunk": 8, "wall": 70.0},
             "thorough": {"runs": 80000, "chunk": 8}},
 }
